@@ -10,6 +10,7 @@
 -/
 import JV.Proofs.Number
 import JV.Proofs.BigInt
+import JV.Proofs.BigIntMul
 namespace JV.Props.C04
 open JV Model
 
@@ -74,10 +75,37 @@ theorem bigint_sub_exact (x y : List Nat) (hx : BigInt.Words x) (hy : BigInt.Wor
 theorem bigint_reduce_exact (xs : List Nat) : BigInt.val (BigInt.stripHigh xs) = BigInt.val xs :=
   BigInt.stripHigh_val xs
 
+/-- `DDproduct` (32-bit half-word products with two carry tests) is the exact 128-bit product, and its
+    high word never exceeds 2^64 - 2 — the fact the multiplication loops silently rely on -/
+theorem bigint_ddproduct_exact (a b : Nat) (ha : a < BigInt.B) (hb : b < BigInt.B) :
+    (BigInt.ddproduct a b).2 + BigInt.B * (BigInt.ddproduct a b).1 = a * b ∧
+      (BigInt.ddproduct a b).2 < BigInt.B ∧ (BigInt.ddproduct a b).1 + 2 ≤ BigInt.B :=
+  BigInt.ddproduct_spec a b ha hb
+
+/-- `operator*=(word)`: the carry loop over DDproduct multiplies exactly -/
+theorem bigint_mulWord_exact (x : List Nat) (w : Nat) (hx : BigInt.Words x) (hw : w < BigInt.B) :
+    BigInt.val (BigInt.mulWord x w) = BigInt.val x * w :=
+  BigInt.mulWord_val x w hx hw
+
+/-- `operator*=(basic_bigint)`: every exit (1×1 with overflow test, word × many, schoolbook columns with the
+    three-word accumulator) gives the exact product. `x.length < 2^64`: the column carry is a 64-bit counter. -/
+theorem bigint_mul_exact (x y : List Nat) (hx : BigInt.Words x) (hy : BigInt.Words y) (hlen : x.length < BigInt.B) :
+    BigInt.val (BigInt.mulMag x y) = BigInt.val x * BigInt.val y :=
+  BigInt.mulMag_val x y hx hy hlen
+
+/-- … with signs: the product of the integers -/
+theorem bigint_mul_signed (a b : BigInt.Big) (ha : BigInt.Words a.mag) (hb : BigInt.Words b.mag) (hlen : a.mag.length < BigInt.B) :
+    BigInt.toInt (BigInt.mul a b) = BigInt.toInt a * BigInt.toInt b :=
+  BigInt.mul_toInt a b ha hb hlen
+
 /-! ### non-vacuity -/
 example : decToU64 [49, 56, 52, 52, 54, 55, 52, 52, 48, 55, 51, 55, 48, 57, 53, 53, 49, 54, 49, 53] = .ok (2 ^ 64 - 1) := by rfl
 example : decToU64 [49, 56, 52, 52, 54, 55, 52, 52, 48, 55, 51, 55, 48, 57, 53, 53, 49, 54, 49, 54] = .error .range := by rfl
 example : decToI64 (fromInteger (-(2 ^ 63))) = .ok (-(2 ^ 63)) := by rfl
 example : BigInt.subLoop [0, 0, 1] [1, 1] 0 = [BigInt.B - 1, BigInt.B - 2, 0] := by decide
+
+example : BigInt.ddproduct (BigInt.B - 1) (BigInt.B - 1) = (BigInt.B - 2, 1) := by decide
+example : BigInt.mulWord [BigInt.B - 1, BigInt.B - 1] (BigInt.B - 1) = [1, BigInt.B - 1, BigInt.B - 2] := by decide
+example : BigInt.mulMag [BigInt.B - 1, BigInt.B - 1] [BigInt.B - 1, BigInt.B - 1] = [1, 0, BigInt.B - 2, BigInt.B - 1] := by decide
 
 end JV.Props.C04
